@@ -593,6 +593,14 @@ theorem propose_credential_not_for_other_step {SK PK Proof Rand : Type} (V : Vrf
   have := makeM_injective seed seed proposeStep st index index hs hs (by decide) hst hi hi hm
   exact this.2.1.symm
 
+/-- The Certificate committee is the one of the look-back header's protocol version: it does not depend on the
+    parameters in force (so prover, verifier and header verification — which reads the same look-back header —
+    use one committee, whatever upgrade happened in between); the other kinds read the parameters in force. -/
+theorem committee_certificate_from_lookback_version (a a' : Committees) (v : Option Committees) :
+    committeeFor a v .certificate = committeeFor a' v .certificate ∧
+    (∀ v', committeeFor a v .propose = committeeFor a v' .propose ∧ committeeFor a v .vote = committeeFor a v' .vote) :=
+  ⟨rfl, fun _ => ⟨rfl, rfl⟩⟩
+
 /-! ## 7a. the live prover path: the SortitionManager's credential cache is transparent -/
 
 /-- Whatever the order of `isProposer` / `isValidator` queries, `ClearStepView` calls (queries for round r+1 before its
